@@ -284,6 +284,17 @@ async fn dial_happy_eyeballs(
             dials.push(
                 async move {
                     trace!("connecting TCP stream");
+                    #[cfg(feature = "verif-hooks")]
+                    if let Some(connector) = crate::verif::dial::connector() {
+                        // Same per-attempt timeout and post-processing as the real path below,
+                        // only the TCP connect call is replaced by the injected connector.
+                        let stream = time::timeout(DIAL_ENDPOINT_TIMEOUT, connector(addr))
+                            .await
+                            .map_err(DialError::from)
+                            .and_then(|res| res.map_err(DialError::from))?;
+                        stream.set_nodelay(true)?;
+                        return Ok(stream);
+                    }
                     let stream = time::timeout(DIAL_ENDPOINT_TIMEOUT, TcpStream::connect(addr))
                         .await
                         .map_err(DialError::from)
@@ -348,6 +359,16 @@ async fn dial_happy_eyeballs(
             () = &mut next_dial_delayed_until, if next_dial_delayed_until.is_some() => {},
         }
     }
+}
+
+/// Verification wrapper: calls the private [`dial_happy_eyeballs`] unchanged.
+#[cfg(feature = "verif-hooks")]
+pub(crate) async fn verif_dial_happy_eyeballs(
+    dns_resolver: &DnsResolver,
+    url: &Url,
+    prefer_ipv6: bool,
+) -> Result<TcpStream, DialError> {
+    dial_happy_eyeballs(dns_resolver, url, prefer_ipv6).await
 }
 
 /// Removes the next address to attempt, preferring `*next_is_v6`'s family and
